@@ -25,4 +25,4 @@ pub use cli::Args;
 pub use fault::{catch, Caught, Injected};
 pub use out::Stats;
 pub use rng::Rng;
-pub use tok::{Elem, Fat, FatTok, HeapTok, Tok, Tok24, ZTok};
+pub use tok::{Elem, Fat, FatTok, HeapTok, Tok, Tok24, TokX, ZTok};
